@@ -15,7 +15,7 @@ from textwrap import dedent
 from types import TracebackType
 
 from .selector import Element, check_element
-from .tags import enter_tag, exit_tag, get_tags
+from .tags import Tag, TagSet, enter_tag, exit_tag, get_tags
 from .utils import ABSENT, DictPile
 
 _IDX = count()
@@ -403,7 +403,16 @@ class PteraTransformer(NodeTransformer):
     def make_interaction(self, target, ann, value, orig=None, expression=False):
         """Create code for setting the value of a variable."""
         if ann and isinstance(target, ast.Name):
-            self.annotated[target.id] = self._evaluate(ann)
+            new_ann = self._evaluate(ann)
+            old_ann = self.annotated.get(target.id, ABSENT)
+            if isinstance(old_ann, (Tag, TagSet)) and isinstance(
+                new_ann, (Tag, TagSet)
+            ):
+                # Annotated more than once: the variable carries all the tags
+                new_ann = old_ann & new_ann
+            elif old_ann is not ABSENT:
+                new_ann = old_ann
+            self.annotated[target.id] = new_ann
             self.linenos[target.id] = target.lineno
         ann_arg = ann if ann else ast.Constant(value=None)
         value_arg = self._get("ABSENT") if value is None else value
